@@ -209,6 +209,15 @@ func do(rt http.RoundTripper, r *clientReq) outcome {
 
 func (o outcome) ok() bool { return o.Err == "" && o.Status/100 == 2 }
 
+// class is the outcome without free text (error messages of the engine or of whichever sub-request
+// failed first are not logical facts and stay out of the event log).
+func (o outcome) class() string {
+	if o.Err != "" {
+		return "error"
+	}
+	return fmt.Sprintf("http-%d", o.Status)
+}
+
 func (o outcome) brief() string {
 	if o.Err != "" {
 		return "error: " + trunc(o.Err, 160)
@@ -463,7 +472,17 @@ func parseDown(r *http.Request) (*downReq, error) {
 
 // fingerprint is the logical identity of a downstream request.
 func (d *downReq) fingerprint() string {
-	return d.Tenant + " " + d.Path + "?" + formString(d.Form)
+	f := d.Form
+	if si := f.Get("shard_info"); si != "" {
+		// the analyzer builds the label list through maps: its order is not a logical fact
+		c := url.Values{}
+		for k, v := range f {
+			c[k] = v
+		}
+		c["shard_info"] = []string{canonShard(si)}
+		f = c
+	}
+	return d.Tenant + " " + d.Path + "?" + formString(f)
 }
 
 func (q *simQuerier) RoundTrip(r *http.Request) (*http.Response, error) {
